@@ -160,7 +160,9 @@ def run(prog: Program, chk: Check):
         if len(waits) != 1:
             S.bad(fkey(f, "wait"), where(f), f"{f.qual}: expected one wait on write_to_disk, found {len(waits)}")
             continue
-        start = [e.dst for e in g.succ[waits[0].id] if e.kind == "true"]
+        # the continuation on which the wait returned true (`if wait(..):` or `if not wait(..): <skip> else:`)
+        wcall = [c for c in calls_in(waits[0].ast) if is_method_call(c, "wait") and (path_of(recv_of(c)) or "") == "self.write_to_disk"][0]
+        start = [e.dst for e in g.succ[waits[0].id] if e.cond is not None and guards.implies([(e.cond, e.pol)], guards.parse(norm(wcall)))]
         loop_heads = {n.id for n in g.nodes if n.kind == "test" and isinstance(getattr(n.stmt, "test", None), ast.AST) and isinstance(n.stmt, ast.While)}
         fin = ev(g, "write_finished", "set")
         tok = ev(g, "write_to_disk", "clear")
@@ -186,24 +188,32 @@ def run(prog: Program, chk: Check):
     ac = [c for c in node_calls(apps[0]) if is_method_call(c, "append")][0]
     dsv = path_of(recv_of(ac)).rsplit(".", 1)[0]
     msgv = path_of(ac.args[0])
-    goal = guards.parse(f"{msgv} and ({dsv}.all_sub or {msgv}.type_id in {dsv}.msg_types)")
-    E.decide(not guards.any_path_implies(ugs.at(apps[0]), goal), fkey(up, "selection-guard"), where(up, ac), "append guarded by msg and (all_sub or type_id in msg_types)",
+    sel = f"({dsv}.all_sub or {msgv}.type_id in {dsv}.msg_types)"
+    goals = [guards.parse(f"{msgv} and {sel}"), guards.parse(f"{msgv} is not None and {sel}")]  # a Message is never falsy
+    goal = goals[0]
+    E.decide(any(not guards.any_path_implies(ugs.at(apps[0]), gl) for gl in goals), fkey(up, "selection-guard"), where(up, ac), "append guarded by msg and (all_sub or type_id in msg_types)",
              "the append is not guarded by exactly the data set's selection")
     # ... and every selected message is appended: the negation leads around the append only
     # converse: paths that bypass the append must have the selection false
     joins = [e.dst for e in ug.succ[apps[0].id] if e.kind != "exc"]
     gs_by = flow.guard_states(ug, edge_filter=lambda e: e.dst != apps[0].id)
     okall = bool(joins)
+    app_loop = next((a for a in ancestors(apps[0].ast) if isinstance(a, ast.For)), None)
+    in_loop = {n.id for n in ug.nodes if n.ast is not None and app_loop is not None and any(a is app_loop for a in ancestors(n.ast))}
     for j in joins:
-        if guards.any_path_implies(gs_by.at(ug.nodes[j]), guards.parse(f"not ({msgv} and ({dsv}.all_sub or {msgv}.type_id in {dsv}.msg_types))")):
+        # the ways of reaching the point after the append, within the same iteration, that did not pass the append
+        byp = [p_ for e in ug.pred[j] if e.src != apps[0].id and e.kind != "exc" and (not in_loop or e.src in in_loop) for p_ in gs_by.after_edge(e)]
+        if all(guards.any_path_implies(byp, guards.parse(f"not ({norm(gl)})")) for gl in goals):
             okall = False
     E.decide(okall, fkey(up, "every-selected-message"), where(up), "a selected message always reaches the append", "a selected message can bypass the append")
     trig = [n for n in ug.nodes if any(is_method_call(c, "trigger_write") for c in node_calls(n))]
-    loops = [n for n in ug.nodes if n.kind == "for" and norm(n.ast.iter) == "self.datasets"]
+    loops = [n for n in ug.nodes if n.kind == "for" and norm(n.ast.iter) == "self.datasets" and n.ast is app_loop]
     okord = len(loops) == 1 and bool(trig)
     if okord:
-        r = flow.reach(ug, [ug.entry.id], follow=lambda e: not (e.src == loops[0].id and e.kind == "done"))
-        okord = all(t.id not in r for t in trig) and not any(isinstance(a, ast.For) for t in trig for a in ancestors(t.ast))
+        # a way to the flush that did not complete the append loop is taken only when there is no message to append
+        gs_nl = flow.guard_states(ug, edge_filter=lambda e: not (e.src == loops[0].id and e.kind == "done"))
+        nomsg = [guards.parse(f"not {msgv}"), guards.parse(f"{msgv} is None")]
+        okord = all(any(not guards.any_path_implies(gs_nl.at(t), gl) for gl in nomsg) or not gs_nl.at(t) for t in trig) and not any(isinstance(a, ast.For) for t in trig for a in ancestors(t.ast))
     E.decide(okord, fkey(up, "append-all-before-flush"), where(up), "the flush decision is taken after every data set received the message", "trigger_write can run before every data set appended the message")
 
     # ---- F finalisation --------------------------------------------------------------------------------------------------
